@@ -789,13 +789,18 @@ int dispatch_printed_messages(const char* messages,
                     STACKALLOC(rtosc_arg_t, vals, val_max);
                     STACKALLOC(char, argstr, val_max+1);
 
+                    size_t nvals = 0;
                     for(i = 0;
                         itr.i - last_pos < (size_t)nargs &&
                             i < elem_limit;
                         ++i)
                     {
                         cur = rtosc_arg_val_itr_get(&itr, &buffer);
-                        vals[i] = cur->val;
+                        // rtosc_amessage() consumes values only for
+                        // types which carry one
+                        if(cur->type != 'T' && cur->type != 'F' &&
+                           cur->type != 'N' && cur->type != 'I')
+                            vals[nvals++] = cur->val;
                         argstr[i] = cur->type;
                         rtosc_arg_val_itr_next(&itr);
                     }
